@@ -39,12 +39,13 @@ O_SUPPRESS = [False, True]
 O_SUBP = [None, ["a"], ["a", "b"], ["chat", "superchat", "v2.chat"]]
 O_COOKIE = [None, "c=9; d=10"]
 O_HEADER = [None, ["X-One: 1", "X-Two: two words"], {"X-One": "1", "X-Two": "two words"}, {"X-One": "1", "X-None": None},
-            {"X-One": "1", "X-Empty": "", "X-None": None, "X-Zero": "0"}, ["X-Empty: ", "X-Zero: 0"]]
+            {"X-One": "1", "X-Empty": "", "X-None": None, "X-Zero": "0"}, ["X-Empty: ", "X-Zero: 0"],
+            ["X-Dup: 1", "X-Other: o", "X-Dup: 2", "x-dup: 3"], {"Accept-Language": "en", "accept-language": "de"}]
 O_CONN = [None, "Connection: keep-alive, Upgrade"]
 
 
 def bounds(tier):
-    return "576 URLs x 1152 option combinations%s; 3 successive connections for key freshness" % (" (full cross product)" if tier == "thorough" else " (quick: axes + diagonal)")
+    return "576 URLs x 1536 option combinations%s; 3 successive connections for key freshness" % (" (full cross product)" if tier == "thorough" else " (quick: axes + diagonal)")
 
 
 def urls():
@@ -433,7 +434,7 @@ def run_task(desc):
     elif part == "opts":
         for o in O:
             run(U[desc["url"]], o)
-        res["samples"].append({"url": make_url(U[desc["url"]]), "options": "all 1152 combinations"})
+        res["samples"].append({"url": make_url(U[desc["url"]]), "options": "all 1536 combinations"})
     elif part == "diag":
         for i, u in enumerate(U):
             run(u, O[(i * 7 + 3) % len(O)])
@@ -442,7 +443,7 @@ def run_task(desc):
         for u in U[desc["ulo"]:desc["uhi"]]:
             for o in O:
                 run(u, o)
-        res["samples"].append({"url": make_url(U[desc["ulo"]]), "options": "all 1152 combinations"})
+        res["samples"].append({"url": make_url(U[desc["ulo"]]), "options": "all 1536 combinations"})
     elif part == "app-callable":
         for form in ("list", "dict"):
             for lost in (0, 1, 2):
